@@ -4,6 +4,7 @@ import (
 	"encoding/json"
 	"fmt"
 	"os"
+	"runtime"
 	"strconv"
 	"sync/atomic"
 	"syscall"
@@ -64,28 +65,50 @@ func noReturnLimit() float64 {
 	return 120
 }
 
-// startWatchdog: fire(description) is called at most once, from the watchdog goroutine, while the main goroutine is
+// startWatchdog: fire(description, cpu, blocked) is called at most once, from the watchdog goroutine, while the main goroutine is
 // stuck inside the implementation; it must not return to normal processing (the caller exits the process).
-func startWatchdog(fire func(desc string, cpu float64)) {
+//
+// Two ways of not returning are told apart: SPINNING (the call has burnt `limit` CPU-seconds of this process) and BLOCKED (no call
+// began or ended for blockedWall seconds of wall time while the process used practically no CPU: a runnable process is scheduled
+// within milliseconds even on a loaded machine, so minutes at zero CPU mean it waits for something that never comes - e.g. a
+// lock the library left held when an earlier call panicked).
+func startWatchdog(fire func(desc string, cpu float64, blocked bool)) {
 	limit := noReturnLimit()
+	const blockedWall = 150.0
 	armed = true
 	go func() {
 		var last uint64
 		var since float64 = -1
+		var sinceWall time.Time
 		for {
 			time.Sleep(2 * time.Second)
 			t := wdTicks.Load()
 			if wdIn.Load() <= 0 || t != last || since < 0 {
-				last, since = t, cpuSeconds()
+				last, since, sinceWall = t, cpuSeconds(), time.Now()
 				continue
 			}
-			if used := cpuSeconds() - since; used >= limit {
-				desc := describeCall(wdA, wdB)
-				fire(desc, used)
+			used := cpuSeconds() - since
+			if used >= limit {
+				fire(describeCall(wdA, wdB), used, false)
+				return
+			}
+			if w := time.Since(sinceWall).Seconds(); w >= blockedWall && used < 0.02*w {
+				// a process that was suspended (and has just been resumed) looks the same for an instant: look again
+				time.Sleep(10 * time.Second)
+				if wdTicks.Load() != t || wdIn.Load() <= 0 {
+					continue
+				}
+				fire(describeCall(wdA, wdB)+" | goroutines: "+trunc(stacks(), 1500), used, true)
 				return
 			}
 		}
 	}()
+}
+
+func stacks() string {
+	buf := make([]byte, 1<<16)
+	n := runtime.Stack(buf, true)
+	return string(buf[:n])
 }
 
 func describeCall(a, b interface{}) string {
@@ -112,20 +135,45 @@ func describeCall(a, b interface{}) string {
 }
 
 // workerNoReturn is the fire function of a worker: record the violation, write the shard result, leave.
-func workerNoReturn(c *Ctx, out string) func(string, float64) {
-	return func(desc string, cpu float64) {
-		c.Violate(Violation{Kind: "no-return", Key: desc, Expected: "the call returns (the calls of this alphabet take microseconds)",
-			Observed: fmt.Sprintf("no return after %.0f CPU-seconds of this single-threaded worker; the worker was stopped", cpu),
-			Detail:   "replaying re-runs the check's enumeration up to the first call that does not return"})
+func workerNoReturn(c *Ctx, out string) func(string, float64, bool) {
+	return func(desc string, cpu float64, blocked bool) {
+		obs := fmt.Sprintf("no return after %.0f CPU-seconds of this single-threaded worker; the worker was stopped", cpu)
+		if blocked {
+			obs = "the call is blocked: no call began or ended for 150 s while the worker used practically no CPU (it waits for something that never comes); the worker was stopped"
+		}
+		c.Violate(Violation{Kind: "no-return", Key: desc, Expected: "the call returns (the calls of this alphabet take microseconds)", Observed: obs,
+			Detail: "replaying re-runs the check's enumeration up to the first call that does not return"})
 		c.R.Caps = append(c.R.Caps, fmt.Sprintf("shard %d/%d: stopped at a call that did not return; the rest of the shard was not explored", c.Shard, c.NShards))
-		b, err := json.Marshal(c.R)
-		if err == nil {
-			err = os.WriteFile(out, b, 0o644)
-		}
-		if err != nil {
-			fmt.Fprintln(os.Stderr, "watchdog:", err)
-			os.Exit(2)
-		}
-		os.Exit(0)
+		writeAndExit(c, out)
 	}
+}
+
+func writeAndExit(c *Ctx, out string) {
+	b, err := json.Marshal(c.R)
+	if err == nil {
+		err = os.WriteFile(out, b, 0o644)
+	}
+	if err != nil {
+		fmt.Fprintln(os.Stderr, "watchdog:", err)
+		os.Exit(2)
+	}
+	os.Exit(0)
+}
+
+// startDeadlineGuard: a worker whose main loop has not come back one minute after its internal deadline writes what it has
+// itself (violations found so far would otherwise be lost when the parent kills it) and leaves; a cap, never an alarm.
+func startDeadlineGuard(c *Ctx, out string) {
+	if c.deadline.IsZero() {
+		return
+	}
+	go func() {
+		time.Sleep(time.Until(c.deadline.Add(time.Minute)))
+		defer func() {
+			if recover() != nil {
+				os.Exit(0) // the main loop was still writing the result: leave it to the parent's hard stop
+			}
+		}()
+		c.R.Caps = append(c.R.Caps, fmt.Sprintf("shard %d/%d: main loop did not return within a minute of the internal deadline; partial result written by the guard", c.Shard, c.NShards))
+		writeAndExit(c, out)
+	}()
 }
